@@ -22,8 +22,9 @@ func TestMain(m *testing.M) { evid.Main("C19", m) }
 
 type Case struct {
 	Table   gen.Table `json:"table"`
-	Spills  int       `json:"spills"`  // 0 none, k>0 about k runs, -1 every row spills
-	Removed []int     `json:"removed"` // column indices removed at output time (never key columns)
+	Spills  int       `json:"spills"`          // 0 none, k>0 about k runs, -1 every row spills
+	Reuse   bool      `json:"reuse,omitempty"` // the rows output comes from the first sorter again (Close, Reset, refill)
+	Removed []int     `json:"removed"`         // column indices removed at output time (never key columns)
 	// SetCols: the ingest path announces the header with SetColumns (which also attaches the
 	// profiler, so no columns may be removed); the merge path (RowCollector) never does.
 	SetCols bool `json:"setcols"`
@@ -35,6 +36,7 @@ func genCase(t *rapid.T) Case {
 	tb := gen.GenTable(t, gen.TableOpts{MaxCols: 5, MaxRows: evid.Scale(600, 800), Boundary: true, MaxBig: 1}, "t")
 	c := Case{Table: tb}
 	c.Spills = rapid.SampledFrom([]int{0, 1, 2, 2, 3, 5, -1}).Draw(t, "spills")
+	c.Reuse = rapid.IntRange(0, 3).Draw(t, "reuse") == 0
 	isKey := map[int]bool{}
 	for _, k := range tb.PK {
 		isKey[k] = true
@@ -84,16 +86,21 @@ func newSorter(c Case, rows [][]string) (*sorter.Sorter, error) {
 	if err != nil {
 		return nil, fmt.Errorf("HARNESS: NewSorter: %v", err)
 	}
+	return s, fill(s, c, rows)
+}
+
+// fill feeds the case's rows to a fresh or Reset sorter.
+func fill(s *sorter.Sorter, c Case, rows [][]string) error {
 	if c.SetCols && len(c.Removed) == 0 {
 		s.SetColumns(c.Table.Cols)
 	}
 	s.PK = c.Table.PKu32()
 	for i, r := range rows {
 		if err := s.AddRow(r); err != nil {
-			return nil, fmt.Errorf("AddRow #%d: %v", i, err)
+			return fmt.Errorf("AddRow #%d: %v", i, err)
 		}
 	}
-	return s, nil
+	return nil
 }
 
 func strip(row []string, removed map[int]struct{}) []string {
@@ -179,10 +186,21 @@ func run(c Case) (o evid.Outcome, err error) {
 		return o, fmt.Errorf("after Close %d spill files remain: %v", len(left), left)
 	}
 
-	// ---- rows output
-	s2, err := newSorter(c, rows)
-	if err != nil {
-		return o, err
+	// ---- rows output: a second sorter, or the first one again after Reset (the way the doctor's
+	// resolver and re-ingest reuse one sorter for table after table)
+	var s2 *sorter.Sorter
+	if c.Reuse {
+		s1.Reset()
+		s2 = s1
+		if err := fill(s2, c, rows); err != nil {
+			return o, err
+		}
+		o.Class("sorter-reused-after-close")
+	} else {
+		s2, err = newSorter(c, rows)
+		if err != nil {
+			return o, err
+		}
 	}
 	var outR [][]string
 	ri := 0
